@@ -306,12 +306,12 @@ func (b *builder) leaf(kind, enc string) px.Value {
 	case "svr":
 		return types.WrapSemVerRange(semver.MustParseVersionRange(enc))
 	case "ts":
-		// SerializationString of a Timespan is its number of whole seconds
-		n, err := strconv.ParseInt(enc, 10, 64)
-		if err != nil {
+		// the serialized form of a Timespan is the default format [-]D-HH:MM:SS.F (read here by the harness's own parser)
+		d, ok := parseSpan(enc)
+		if !ok {
 			bad("timespan payload")
 		}
-		return types.WrapTimespan(time.Duration(n) * time.Second)
+		return types.WrapTimespan(d)
 	case "tm":
 		return types.ParseTimestamp(enc, types.DefaultTimestampFormats, "")
 	case "uri":
@@ -326,6 +326,43 @@ func (b *builder) leaf(kind, enc string) px.Value {
 	}
 	bad("leaf kind %s", kind)
 	return nil
+}
+
+// fmtSpan / parseSpan: the harness's own reading of the default Timespan format %D-%H:%M:%S.%-N (independent of pcore's)
+func fmtSpan(d time.Duration) string {
+	sign := ""
+	n := int64(d)
+	if n < 0 {
+		sign, n = "-", -n
+	}
+	frac := strings.TrimRight(fmt.Sprintf("%09d", n%1000000000), "0")
+	if frac == "" {
+		frac = "0"
+	}
+	sec := n / 1000000000
+	return fmt.Sprintf("%s%d-%02d:%02d:%02d.%s", sign, sec/86400, sec/3600%24, sec/60%60, sec%60, frac)
+}
+
+func parseSpan(s string) (time.Duration, bool) {
+	neg := strings.HasPrefix(s, "-")
+	if neg {
+		s = s[1:]
+	}
+	var d, h, m, sec int64
+	var frac string
+	if n, err := fmt.Sscanf(s, "%d-%d:%d:%d.%s", &d, &h, &m, &sec, &frac); err != nil || n != 5 || len(frac) > 9 {
+		return 0, false
+	}
+	f, err := strconv.ParseInt(frac+strings.Repeat("0", 9-len(frac)), 10, 64)
+	if err != nil {
+		return 0, false
+	}
+	n := (((d*24+h)*60+m)*60+sec)*1000000000 + f
+	if neg {
+		n = -n
+	}
+	r := time.Duration(n)
+	return r, fmtSpan(r) == map[bool]string{true: "-", false: ""}[neg]+s
 }
 
 // ---- events ---------------------------------------------------------------------------------------------
@@ -699,6 +736,9 @@ func encOf(v px.Value) string {
 // Sensitive values by what they wrap (the property's reading of equality)
 func normalize(v px.Value) px.Value {
 	switch t := v.(type) {
+	case types.Timespan:
+		// Timespan.Equals compares whole seconds; the round trip is held to the exact duration
+		return types.WrapValues([]px.Value{types.WrapString("\x00timespan"), types.WrapInteger(int64(t.Duration()))})
 	case *types.Sensitive:
 		return types.WrapValues([]px.Value{types.WrapString("\x00sensitive"), normalize(t.Unwrap())})
 	case *types.Array:
